@@ -231,6 +231,31 @@ def id3_frame_inputs(seed=1):
                 frame = name.encode("ascii") + size + b"\x00\x00" + body
                 tag = b"ID3" + bytes([ver, 0, 0]) + bytes(W_syncsafe(len(frame))) + frame
                 out.append(("id3-frame-prefix:%s/v2.%d/%d" % (name, ver, k), tag))
+    # size-like fields inside frame payloads: RVA2 peak width (bits) with saturated / minimal peak bytes, and a
+    # byte sweep (00 7F 80 FF) over the first bytes of one valid payload per class
+    def tag_of(name, body, ver=4):
+        size = struct.pack(">I", len(body)) if ver == 3 else bytes(W_syncsafe(len(body)))
+        frame = name.encode("ascii") + size + b"\x00\x00" + body
+        return b"ID3" + bytes([ver, 0, 0]) + bytes(W_syncsafe(len(frame))) + frame
+    for bits in (0, 1, 7, 8, 9, 15, 16, 17, 23, 24, 25, 31, 32, 33, 63, 64, 65, 255):
+        nb = (bits + 7) // 8
+        for fill in (b"\xff", b"\x00", b"\x80", b"\x7f"):
+            for gain in (b"\x00\x00", b"\x7f\xff", b"\x80\x00"):
+                for short in (0, 1):
+                    body = b"id\x00" + b"\x01" + gain + bytes([bits]) + (fill * nb)[:max(0, nb - short)]
+                    out.append(("id3-rva2:bits=%d fill=%s gain=%s short=%d" % (bits, fill.hex(), gain.hex(), short), tag_of("RVA2", body)))
+    for name in sorted(Frames):
+        cls = Frames[name]
+        try:
+            from mutagen.id3._util import ID3SaveConfig
+            fr = c12.gen_frame(rng, cls, 0, 4)
+            data = bytes(fr._writeData(ID3SaveConfig(4, None)))[:64]
+        except Exception:
+            continue
+        for k in range(min(len(data), 20)):
+            for v in (0x00, 0x7F, 0x80, 0xFF):
+                if data[k] != v:
+                    out.append(("id3-frame-byte:%s@%d=%02x" % (name, k, v), tag_of(name, data[:k] + bytes([v]) + data[k + 1:])))
     return out
 
 
